@@ -197,6 +197,7 @@ var specSpecial = pbt.Register(&pbt.Spec[SCase]{
 		}
 	},
 	Run: RunSpecial, Exhaustive: true,
+	Replicas: 4, ReplicaEvery: 8,
 })
 
 func TestC15Special(t *testing.T) { pbt.Check(t, specSpecial) }
